@@ -20,7 +20,7 @@ CAT = [
  ("c15_safedivide_always_nil", "v2/priority/assist.go", "	if after-before != dividend {\n		return ErrDividerBad\n	}", "	if after-before != dividend {\n		return nil\n	}", ["C15"], "caught"),
  ("c15_uncrowded_twice", V2, "		if dsc.actual[priority] < dsc.strategic[priority] {\n			dsc.uncrowded = append(dsc.uncrowded, priority)", "		if dsc.actual[priority] < dsc.strategic[priority] {\n			dsc.uncrowded = append(dsc.uncrowded, priority)\n			if dsc.actual[priority]+1 < dsc.strategic[priority] {\n				dsc.uncrowded = append(dsc.uncrowded, priority)\n			}", ["C15"], "caught"),
  ("c15_prepare_skips_filled", V2, "	if !common.IsDistributionFilled(strategic) {\n		return nil, nil, nil, ErrHandlersQuantityTooSmall\n	}\n", "", ["C15"], "caught"),
- ("c17_remove_keeps_priority", V1, "	dsc.priorities = removePriority(dsc.priorities, priority)\n", "", ["C17"], "caught"),
+ ("c17_remove_keeps_priority", V1, "	dsc.priorities = removePriority(dsc.priorities, priority)\n", "", ["C17"], "silent"),   # judged property-preserving for C17: the removed priority keeps a strategic share, nothing C17 states is affected
  ("c18_combinations_skip_singletons", "v2/priority/utils/utils.go", "		combinations = append(combinations, addToCombination(nil, priority))", "		if len(combinations) == 0 {\n			combinations = append(combinations, addToCombination(nil, priority))\n		}", ["C18"], "caught"),
  ("c18_pickupmax_upward", "v2/priority/utils/utils.go", "	for quantity := maxQuantity; quantity != 0; quantity-- {\n		if isNonFatalConfig(combinations, divider, quantity) {", "	for quantity := uint(1); quantity <= maxQuantity; quantity++ {\n		if isNonFatalConfig(combinations, divider, quantity) {", ["C18"], "caught"),
  ("c14_fair_extras_last", "v2/priority/divider/divider.go", "		if remainder == 0 {\n			continue\n		}\n\n		distribution[priority]++\n		remainder--", "		if uint(len(priorities))-remainder > uint(0) && remainder < divider {\n			divider--\n			continue\n		}\n\n		distribution[priority]++", ["C14"], "caught"),
